@@ -2,6 +2,7 @@ package gosym
 
 import (
 	"regexp"
+	"sync"
 	"regexp/syntax"
 	"unicode"
 
@@ -25,7 +26,18 @@ func (r *HostRegexp) Call(c *Ctx, m string, a []Value) Value {
 	return nil
 }
 
+var reCache sync.Map // pattern -> *HostRegexp (immutable)
+
 func newHostRegexp(c *Ctx, pat string) *HostRegexp {
+	if v, ok := reCache.Load(pat); ok {
+		return v.(*HostRegexp)
+	}
+	r := compileHostRegexp(c, pat)
+	reCache.Store(pat, r)
+	return r
+}
+
+func compileHostRegexp(c *Ctx, pat string) *HostRegexp {
 	re, err := regexp.Compile(pat)
 	if err != nil {
 		c.goPanic("regexp: Compile("+pat+"): "+err.Error(), nil)
